@@ -91,6 +91,114 @@ def render_pair(rng, v, cfg, trivs):
     return go(v, False), rng.choice(trivs) + go(v, True) + (rng.choice(trivs) if rng.random() < 0.5 else b"")
 
 
+# ---------------------------------------------------------------------------------------------------------------
+# Trivia by size: every length of every kind of trivia, at several start offsets, with a given number of input bytes
+# after it.  The block paths of the comment / blank skippers (16, 32, 64 ... bytes at a time, with a shorter path near
+# the end of the input) depend on exactly these three numbers.
+# ---------------------------------------------------------------------------------------------------------------
+FILLS = (b"c", b"7 ", b"] ", b"x) ", b"\" ", b"} :k ", b"\xc3\xa9 ", b"; #_ ")
+LONG_TAIL = b"2 3 :alpha :beta :gamma :delta \"a string\" {:k [1 2 3] :l #{4 5 6}} (some more forms) 7 8 9 10 11 12 13 14 15 16 17 18 19 20 :omega"
+
+
+def comment_body(rng, n, fill):
+    """n bytes none of which is a line feed, and which would not read as blanks if they were read as forms"""
+    if fill is None:
+        pool = bytes(b for b in range(0x21, 0x100) if b != 0x7F) + b"  ;;\"\"[](){}##__\\"
+        return bytes(rng.choice(pool) for _ in range(n))
+    return (fill * (n // len(fill) + 1))[:n]
+
+
+def sized_trivia(rng, cfg, kind, n, fill=b"c"):
+    """one piece of trivia of kind `kind` whose size parameter is n; always ends so that a following token is separate"""
+    if kind == "comment":
+        return b";" + comment_body(rng, n, fill) + b"\n"
+    if kind == "comments":  # a block of comment lines, n bytes of text in all
+        out, left = b"", n
+        while True:
+            k = min(left, rng.choice([0, 1, 15, 16, 17, 47, 48, 63, 64, 65, 79]))
+            out += rng.choice([b"", b" ", b"  "]) + b";" + comment_body(rng, k, fill) + b"\n"
+            left -= k
+            if left <= 0:
+                return out
+    if kind == "blanks":
+        return bytes([G.WS_BYTES[n % len(G.WS_BYTES)]]) * max(n, 1)
+    if kind == "mixed-blanks":
+        return bytes(rng.choice(G.WS_BYTES) for _ in range(max(n, 1)))
+    if kind == "discard-string":
+        return b"#_\"" + comment_body(rng, n, b"s;\n ") + b"\" "
+    if kind == "discard-symbol":
+        return b"#_ " + (b"sym-bol." * (n // 8 + 1))[:max(n, 1)] + b" "
+    if kind == "discard-vector":
+        return b"#_[" + b":k 1 #_ x " * (n // 10) + b"y" * (n % 10) + b"] "
+    if kind == "discard-chain":
+        k, out = n // 8 + 1, b""
+        while k > 0:  # chains of at most 60 markers: a chain nests, and nesting deeper than the limit is an error by design
+            j = min(k, 60)
+            out += b"#_ " * j + b" ".join(b"d%d" % i for i in range(j)) + b" "
+            k -= j
+        return out
+    if kind == "comment-in-discard":
+        return b"#_[a ;" + comment_body(rng, n, fill) + b"\nb] "
+    raise ValueError(kind)
+
+
+SIZED_KINDS = ("comment", "comments", "blanks", "mixed-blanks", "discard-string", "discard-symbol", "discard-vector", "discard-chain", "comment-in-discard")
+
+
+def tail_of(r):
+    """the rest of a vector, exactly r >= 4 bytes"""
+    return (b"2 3" + b" 45" * (r // 3 + 1))[:r - 1] + b"]"
+
+
+def sized_pairs(rng, cfg, tier):
+    """(plain, decorated, family) triples: the plain document and the same document with one sized piece of trivia"""
+    out = []
+    sizes = list(range(0, 201)) + [223, 239, 240, 255, 256, 257, 300, 303, 304, 319, 320, 321, 367, 383, 384, 431, 447, 448, 449, 500, 511, 512, 513, 560, 575, 576, 599, 600]
+    if tier != "quick":
+        sizes = list(range(0, 601)) + [rng.randint(601, 2100) for _ in range(60)] + [1023, 1024, 1025, 2047, 2048, 2049]
+    pads = (0, 1, 5, 15, 16, 31)
+    for n in sizes:
+        # line comments: every start offset, in a vector with a long rest / at top level / in a map / in a set
+        for j, pad in enumerate(pads):
+            fill = FILLS[(n + j) % len(FILLS)] if (n + j) % 9 else None
+            t = sized_trivia(rng, cfg, "comment", n, fill)
+            out.append((b" " * pad + b"[1 " + LONG_TAIL + b"]", b" " * pad + b"[1 " + t + LONG_TAIL + b"]", "comment/vector"))
+        pad = pads[n % len(pads)]
+        t = sized_trivia(rng, cfg, "comment", n, FILLS[n % len(FILLS)])
+        out.append((b"," * pad + b"[:v 1 2] " + LONG_TAIL, b"," * pad + t + b"[:v 1 2] " + LONG_TAIL, "comment/top-level"))
+        out.append((b"{:a 1 :b [" + LONG_TAIL + b"]}", b"{:a " + t + b"1 :b [" + LONG_TAIL + b"]}", "comment/map"))
+        out.append((b"(0 #{1 " + LONG_TAIL + b"})", b"(0 #{1 " + t + LONG_TAIL + b"})", "comment/set"))
+        out.append((b"[#id 1 " + LONG_TAIL + b"]", b"[#id " + t + b"1 " + LONG_TAIL + b"]", "comment/after-tag"))
+        # ... and with a chosen number of bytes after the comment (the shorter paths near the end of the input)
+        rests = [4, 5 + n % 12, 16 + n % 16, 32 + n % 32, 47 + n % 3, 62 + n % 5, 64 + n % 64, 126 + n % 5] if tier == "quick" else list(range(4, 140, 2 + n % 3))
+        for r in rests:
+            t = sized_trivia(rng, cfg, "comment", n, FILLS[(n + r) % len(FILLS)])
+            out.append((b"[1 " + tail_of(r), b"[1 " + t + tail_of(r), "comment/rest-of-input"))
+        # the other kinds of trivia, one start offset per size
+        for kind in SIZED_KINDS[1:]:
+            pad = pads[(n + len(kind)) % len(pads)]
+            t = sized_trivia(rng, cfg, kind, n, FILLS[n % len(FILLS)])
+            out.append((b" " * pad + b"[1 " + LONG_TAIL + b"]", b" " * pad + b"[1 " + t + LONG_TAIL + b"]", kind + "/vector"))
+    return out
+
+
+def sized_trivia_only(rng, cfg, tier):
+    """trivia-only documents: a comment of every size followed by at least 64 / 128 bytes of further trivia"""
+    out = []
+    after = [b"   ,,, #_ discarded   \t\t   ;; trailing comment without newline", b" " * 64, b",\n" * 50, b" #_ [1 2 {:a 3}] " * 9 + b";" + b"z" * 70,
+             b";" + b"-" * 130 + b"\n", b""]
+    sizes = list(range(0, 201)) + [255, 256, 300, 320, 383, 448, 511, 512, 600]
+    if tier != "quick":
+        sizes = list(range(0, 601))
+    for n in sizes:
+        for j in range(2 if tier == "quick" else len(after)):
+            a = after[(n + j * 3) % len(after)]
+            pad = (0, 2, 15, 16)[(n + j) % 4]
+            out.append(b" " * pad + sized_trivia(rng, cfg, "comment", n, FILLS[(n + j) % len(FILLS)]) + a)
+        out.append(b";" + comment_body(rng, n, FILLS[n % len(FILLS)]))  # ends at the end of the input, no line feed
+    return out
+
+
 def calls_names(line):
     if " calls=[" not in line:
         return []
@@ -117,32 +225,51 @@ def run(tier):
                          ("list", [("int", 1), ("sym", nm[:3], nm), ("int", 2)]), ("set", [("sym", None, nm), ("kw", None, nm)])):
                 vals.append(form)
         pairs = [render_pair(rng, v, cfg, trivs) for v in vals]
-        # 8 = handler registry; +2 / +4 = default reader mode unwrap / error for tags without a handler
-        for opt in (0, 8, 10, 12):
-            pl = K.read_lines([p for p, _ in pairs], opt)
-            dl = K.read_lines([d for _, d in pairs], opt)
-            pi, pm, pdiffs, pcr, _ = K.correspond(cfg, pl)
-            di, dm_, ddiffs, dcr, _ = K.correspond(cfg, dl)
-            rep.count("pairs/%s/opt%d" % (cfg, opt), len(pairs))
-            for idx, rc, err in pcr + dcr:
+
+        def compare(pairs, opts, label, fams=None):
+            nonlocal found
+            plain_docs = sorted(set(p for p, _ in pairs))  # many sized pairs share their plain document: read it once
+            pidx = {p: i for i, p in enumerate(plain_docs)}
+            # one run for all options: plain documents first, then the decorated ones
+            lines, where = [], {}
+            for opt in opts:
+                where[opt] = (len(lines), len(lines) + len(plain_docs))
+                lines += K.read_lines(plain_docs, opt) + K.read_lines([d for _, d in pairs], opt)
+            impl, model, diffs, crashes, _ = K.correspond(cfg, lines)
+            for idx, rc, err in crashes:
                 found = True
-                rep.finding("crash", "reading crashed", {"kind": "read", "config": cfg, "opt": opt, "stderr": err[:2000]})
-            for i in (pdiffs + ddiffs)[:5]:
-                rep.broken_obligation("correspondence/read", "model and code differ on a decorated/plain document (config %s, opt %d)" % (cfg, opt), False)
-            for i, (a, b) in enumerate(zip(pi, di)):
-                if a is None or b is None:
-                    continue
-                # the test handler `ext` stores the byte length of its operand's text, which trivia changes by design
-                # error positions move with the trivia by design: compare the class only
-                norm = lambda t: (" ".join(t.split()[:2]) if t.startswith("err ") else re.sub(r"\(ext 7 \d+\)", "(ext 7 _)", K.strip_ranges(t.split(" calls=[")[0])))
-                sa, sb = norm(a), norm(b)
-                if a.startswith("err DUPLICATE") and b.startswith("err DUPLICATE"):
-                    continue  # handler results collided in a set: same verdict either way
-                if sa != sb or calls_names(a) != calls_names(b):
-                    found = True
-                    rep.finding("trivia-changes-value", "inserting trivia changed the value or the handler calls",
-                                {"kind": "pair", "config": cfg, "opt": opt, "plain_hex": C.hexs(pairs[i][0]), "decorated_hex": C.hexs(pairs[i][1]),
-                                 "expected": sa[:600], "observed": sb[:600]})
+                rep.finding("crash", "reading crashed", {"kind": "lines", "config": cfg, "lines": [lines[idx]] if 0 <= idx < len(lines) else [], "stderr": err[:2000]})
+            for i in diffs[:5]:
+                rep.broken_obligation("correspondence/read", "model and code differ on a decorated/plain document (config %s): %s" % (cfg, lines[i][:300]), False)
+            for opt in opts:
+                rep.count("%s/%s/opt%d" % (label, cfg, opt), len(pairs))
+                pi = impl[where[opt][0]:where[opt][1]]
+                di = impl[where[opt][1]:where[opt][1] + len(pairs)]
+                for i, b in enumerate(di):
+                    a = pi[pidx[pairs[i][0]]]
+                    if a is None or b is None:
+                        continue
+                    # the test handler `ext` stores the byte length of its operand's text, which trivia changes by design
+                    # error positions move with the trivia by design: compare the class only
+                    norm = lambda t: (" ".join(t.split()[:2]) if t.startswith("err ") else re.sub(r"\(ext 7 \d+\)", "(ext 7 _)", K.strip_ranges(t.split(" calls=[")[0])))
+                    sa, sb = norm(a), norm(b)
+                    if a.startswith("err DUPLICATE") and b.startswith("err DUPLICATE"):
+                        continue  # handler results collided in a set: same verdict either way
+                    if sa != sb or calls_names(a) != calls_names(b):
+                        found = True
+                        rep.finding("trivia-changes-value" + ("/" + fams[i].split("/")[0] if fams else ""), "inserting trivia changed the value or the handler calls" + (" (%s)" % fams[i] if fams else ""),
+                                    {"kind": "pair", "config": cfg, "opt": opt, "plain_hex": C.hexs(pairs[i][0]), "decorated_hex": C.hexs(pairs[i][1]),
+                                     "expected": sa[:600], "observed": sb[:600]})
+
+        # 8 = handler registry; +2 / +4 = default reader mode unwrap / error for tags without a handler
+        compare(pairs, (0, 8, 10, 12), "pairs")
+        # one piece of trivia of every size 0..200 (and some up to 600; thorough: every size to 600 and some to 2100) of every kind,
+        # at several start offsets and with 4..130 or a few hundred bytes of input after it
+        sized = sized_pairs(rng, cfg, tier)
+        compare([(p, d) for p, d, _ in sized], (0, 8), "sized-trivia", [f for _, _, f in sized])
+        for f in sorted(set(f for _, _, f in sized)):
+            rep.count("sized-trivia/%s/%s" % (cfg, f), sum(1 for x in sized if x[2] == f))
+        rep.note_cases(len(sized), set(C.sha(d)[:16] for _, d, _ in sized), sample={"family": sized[700][2], "decorated": sized[700][1][:300].decode("latin-1")})
         rep.note_cases(2 * len(pairs), set(C.sha(d)[:16] for _, d in pairs), sample={"plain": pairs[0][0][:150].decode("latin-1"), "decorated": pairs[0][1][:300].decode("latin-1")})
         # handlers are never invoked inside discarded forms
         ddocs = []
@@ -164,6 +291,9 @@ def run(tier):
         # trivia-only documents
         tdocs = list(trivs) + [b"#_ foo", b"#_ [1 2 3] ; trailing comment\n", b"  #_ a #_ {:b 1}  ", b"#_ #_ a b", b"#_#t 1", b"#_ \"s\"\n"] + [b"".join(rng.choice(trivs) for _ in range(3)) for _ in range(100)] + [b"; no newline", b" ;x", b",", b""]
         tdocs = [t for t in tdocs if t] + [b""]  # the empty document (passed as a NUL-terminated empty string) is trivia-only too
+        sized_only = sized_trivia_only(rng, cfg, tier)
+        tdocs += [t for t in sized_only if t]
+        rep.count("trivia-only-sized-comments/%s" % cfg, len(sized_only))
         for opt in (0, 1):
             out, cr = K.run_impl(cfg, K.read_lines(tdocs, opt))
             mo, _ = K.run_model(cfg, K.read_lines(tdocs, opt))
@@ -188,6 +318,8 @@ def replay(path):
     exe = C.harness("unity", r["config"], "san")
     if r.get("kind") == "pair":
         out = C.run_lines(exe, K.read_lines([bytes.fromhex(r["plain_hex"]), bytes.fromhex(r["decorated_hex"])], r.get("opt", 0)))
+    elif r.get("kind") == "lines":
+        out = C.run_lines(exe, r["lines"])
     else:
         out = C.run_lines(exe, K.read_lines([bytes.fromhex(r["input_hex"])], r.get("opt", 0)))
     print("now:", out.outputs)
